@@ -101,6 +101,13 @@ if __name__ == "__main__":
     mk("c13-flatten-keeps-error-fn", R + "flat_map.py", "        self._error_fn = None\n", "")
     mk("c13-error-fn-result-ignored", R + "map.py", "            result = self._delegate_failed(delegate)\n            if self.done():\n                return", "            result = self._delegate_failed(delegate)\n            if self.done():\n                return\n            if result is None:\n                copy_future_exception(delegate, self)\n                return")
     mk("c13-map-fn-exception-replaced", R + "map.py", "            try:\n                result = self._map_fn(result)\n            except Exception:\n                copy_exception(self)\n                return", "            try:\n                result = self._map_fn(result)\n            except Exception as e:\n                copy_exception(self, type(e)(*e.args))\n                return")
+    # C14
+    mk("c14-handle-done-no-lock", "more_executors/_impl/futures/bool.py", "        with self.lock:\n            if self.done:\n                return\n", "        if True:\n            if self.done:\n                return\n")
+    mk("c14-and-losers-not-cancelled-on-exception", "more_executors/_impl/futures/bool.py", "            # Failed => we're done\n            self.done = True\n            set_exception = True\n            cancel_futures = list(self.fs.keys())", "            # Failed => we're done\n            self.done = True\n            set_exception = True")
+    mk("c14-or-last-falsy-takes-first", "more_executors/_impl/futures/bool.py", "        if (not self.fs) or (not f.cancelled() and not f.exception() and f.result()):", "        if (len(self.fs) <= 1 and not f.cancelled() and not f.exception()) or (not self.fs) or (not f.cancelled() and not f.exception() and f.result()):")
+    mk("c14-dup-keyerror", "more_executors/_impl/futures/bool.py", "            self.fs.pop(f, None)\n", "            del self.fs[f]\n")
+    mk("c14-and-cancelled-input-ignored", "more_executors/_impl/futures/bool.py", "        if f.cancelled():\n            # Cancelled => output is cancelled\n            self.done = True", "        if f.cancelled() and self.fs:\n            pass\n        elif f.cancelled():\n            # Cancelled => output is cancelled\n            self.done = True")
+    mk("c14-single-input-wrapped", "more_executors/_impl/futures/bool.py", "    if not fs:\n        return f\n\n    oper = OrOperation", "    oper = OrOperation")
     # C07
     mk("c07-throttle-ge-to-gt", R + "throttle.py", "(executor._running_count.value >= throttle)", "(executor._running_count.value > throttle)")
     mk("c07-incr-after-submit", R + "throttle.py", "            executor._running_count.incr()\n            metrics.THROTTLE_QUEUE", "            metrics.THROTTLE_QUEUE")
